@@ -291,6 +291,8 @@ class NpProxy:
             return LOGADDEXP
         if name == "exp" and self._exact_log:
             return _exact_exp
+        if name == "log1p" and self._exact_log:
+            return lambda x: _exact_log(1 + x if not isinstance(x, np.ndarray) else (np.asarray(x, dtype=object) + 1))
         if name == "isclose":
             return _isclose
         if name == "allclose":
